@@ -125,6 +125,31 @@ def make_sampler(cfg, start, tgt, positions=None):
         return EnsembleSampler(posterior=tgt, starting_positions=positions, alpha=cfg["ens"]["alpha"], bounds=box, display_progress=False)
 
 
+class RecordingBounds:
+    """duck-typed stand-in for inference.mcmc.Bounds that records the verdicts of inside()"""
+
+    def __init__(self, lower, upper):
+        from inference.mcmc import Bounds
+
+        self._b = Bounds(lower=np.array(lower, dtype=float), upper=np.array(upper, dtype=float))
+        self.lower, self.upper, self.width, self.n_bounds = self._b.lower, self._b.upper, self._b.width, self._b.n_bounds
+        self.calls = []
+
+    def inside(self, theta):
+        v = bool(self._b.inside(theta))
+        self.calls.append(v)
+        return v
+
+    def reflect(self, theta):
+        return self._b.reflect(theta)
+
+    def reflect_momenta(self, theta):
+        return self._b.reflect_momenta(theta)
+
+    def validate_start_point(self, *a, **k):
+        return self._b.validate_start_point(*a, **k)
+
+
 def exact_draws(cfg, tgt, gen, n):
     return tgt.sample(gen, n, T=cfg["T"], box=box_of(cfg))
 
@@ -217,11 +242,20 @@ def one_step(cfg, ctx, first_attempt):
                     X1[k] = pos[0]      # degenerate walker configuration rejected by the constructor (measure ~0)
                     continue
                 n0 = len(tgt.trace)
+                rec = None
+                if ch.bounds is not None:
+                    # a proposal outside the bounds is a rejected attempt that never reaches the posterior: observe it
+                    # through the public Bounds.inside of a recording stand-in for the sampler's public 'bounds'
+                    rec = RecordingBounds(ch.bounds.lower, ch.bounds.upper)
+                    ch.bounds = rec
                 ch.advance(1)
                 first = tgt.trace[n0][0]
                 stored = np.asarray(ch.get_sample(burn=0))[0]
                 if first_attempt:
-                    acc = np.array_equal(stored, first)
+                    if rec is not None and rec.calls and rec.calls[0] is False:
+                        acc = False
+                    else:
+                        acc = np.array_equal(stored, first)
                     X1[k] = first if acc else pos[0]
                     n_first_acc += acc
                 else:
